@@ -13,7 +13,7 @@ theorem bool_of_not_not {a : Bool} (h : ¬ (!a) = true) : a = true := by cases a
 /-- what `PreExecBlock` (= `preExec`) answering "no error" means. -/
 theorem preExec_none {T : Table} {s : State} {b : Blk} (h : preExec T s b = none) :
     b.sigOk = true ∧
-    (b.txs.filter (fun t => !s.pool.contains (T t).hash)).all (fun t => (T t).sigOk) = true ∧
+    (b.txs.filter (fun t => !poolVouches T s t)).all (fun t => (T t).sigOk) = true ∧
     ((delDup T b.txs).filter (fun t => !hasTx T s t)).length = b.txs.length ∧
     b.txs.all (fun t => checkTx s.hi s.lo (T t) b.height b.time) = true ∧
     b.rootOk = true ∧ b.stateOk = true ∧ b.chkOk = none := by
@@ -22,7 +22,7 @@ theorem preExec_none {T : Table} {s : State} {b : Blk} (h : preExec T s b = none
   · rw [if_pos h1] at h; cases h
   rw [if_neg h1] at h
   dsimp only at h
-  by_cases h2 : (!(b.txs.filter (fun t => !s.pool.contains (T t).hash)).all (fun t => (T t).sigOk)) = true
+  by_cases h2 : (!(b.txs.filter (fun t => !poolVouches T s t)).all (fun t => (T t).sigOk)) = true
   · rw [if_pos h2] at h; cases h
   rw [if_neg h2] at h
   by_cases h3 : ((delDup T b.txs).filter (fun t => !hasTx T s t)).length ≠ b.txs.length
@@ -49,7 +49,7 @@ theorem disconnectBlock_cases {P : Params} {s s' : State} {b : Blk} {r : Option 
                      best := rest,
                      txIdx := delTxs P s1.txIdx b,
                      cache := cacheDel P s1 b.height,
-                     pool := (keys P b).foldl (fun p h => if p.contains h then p else p ++ [h]) s1.pool } := by
+                     pool := poolReadd P s1.pool b.txs } := by
   unfold disconnectBlock at h
   split at h
   · cases h; exact Or.inl rfl
@@ -127,31 +127,43 @@ theorem checkTx_true {hi lo : Nat} {t : Tx} {h tm : Nat} (hc : checkTx hi lo t h
 
 /-! ### signatures -/
 
-/-- every hash the mempool holds is the hash of some correctly signed instance; every block on
-the best chain, and whatever the store holds under its hash, carries correctly signed
-transactions only. -/
+/-- every transaction the mempool holds is correctly signed; every block on the best chain, and
+whatever the store holds under its hash, carries correctly signed transactions only. -/
 def SigInv (T : Table) (s : State) : Prop :=
-  (∀ h ∈ s.pool, ∃ j, (T j).hash = h ∧ (T j).sigOk = true) ∧
+  (∀ p ∈ s.pool, (T p).sigOk = true) ∧
   (∀ x ∈ s.best, ∃ x', s.stored x.id = some x' ∧ ∀ t ∈ x'.txs, (T t).sigOk = true) ∧
   (∀ x ∈ s.best, ∀ t ∈ x.txs, (T t).sigOk = true)
 
-theorem mem_poolReadd (ks : List Nat) : ∀ (p : List Nat) (h : Nat),
-    h ∈ ks.foldl (fun p h => if p.contains h then p else p ++ [h]) p → h ∈ p ∨ h ∈ ks := by
+theorem mem_poolReadd (P : Params) (ks : List Nat) : ∀ (p : List Nat) (h : Nat),
+    h ∈ poolReadd P p ks → h ∈ p ∨ h ∈ ks := by
+  unfold poolReadd
   induction ks with
   | nil => intro p h hh; exact Or.inl hh
   | cons k rest ih =>
     intro p h hh
     simp only [List.foldl_cons] at hh
     rcases ih _ h hh with h1 | h1
-    · split at h1
+    · unfold poolPush at h1
+      split at h1
       · exact Or.inl h1
       · rcases List.mem_append.mp h1 with h2 | h2
         · exact Or.inl h2
         · exact Or.inr (by simp at h2; simp [h2])
     · exact Or.inr (List.mem_cons_of_mem _ h1)
 
-theorem sig_pres (T : Table) (H : ∀ i j, (T i).hash = (T j).hash → (T i).sigOk = (T j).sigOk) :
-    Pres (ofTable T) (fun _ => True) (fun h => ∃ j, (T j).hash = h ∧ (T j).sigOk = true) (SigInv T) where
+theorem poolVouches_mem {T : Table} {s : State} {t : Nat} (h : poolVouches T s t = true) : t ∈ s.pool := by
+  unfold poolVouches at h
+  split at h
+  · rename_i p hp
+    have : p = t := by simpa using h
+    subst this
+    exact List.mem_of_find?_eq_some hp
+  · cases h
+
+/-- with the repaired `PreExecBlock` the signature invariant needs NO assumption about different
+instances of one hash: only pool insertions have to be correctly signed. -/
+theorem sig_pres (T : Table) :
+    Pres (ofTable T) (fun _ => True) (fun t => (T t).sigOk = true) (SigInv T) where
   frame := by
     intro s s' h ha
     refine ⟨by rw [ha.2.2.2.2.2.2.2.2.2.2.2.2.2.2]; exact h.1, ?_, by rw [ha.2.2.2.2.1]; exact h.2.2⟩
@@ -164,13 +176,12 @@ theorem sig_pres (T : Table) (H : ∀ i j, (T i).hash = (T j).hash → (T i).sig
     have hbest : s1.best = s.best := hf.2.2.2.2.2.2.2.2.2.1
     have hstored : s1.stored = s.stored := hf.2.2.2.2.2.2.2.2.2.2.1
     have hpool : s1.pool = s.pool := hf.2.2.2.2.2.2.2.2.2.2.2.2.2.2.2.2
-    -- every transaction of the block is correctly signed
+    -- every transaction of the block is correctly signed: verified, or the pool holds this very one
     have hsig : ∀ t ∈ b.txs, (T t).sigOk = true := by
       intro t ht
-      by_cases hp : s.pool.contains (T t).hash = true
-      · obtain ⟨j, hj, hjs⟩ := h.1 (T t).hash (by simpa using hp)
-        rw [H t j hj.symm]; exact hjs
-      · have hm : t ∈ b.txs.filter (fun t => !s.pool.contains (T t).hash) := by
+      by_cases hp : poolVouches T s t = true
+      · exact h.1 t (poolVouches_mem hp)
+      · have hm : t ∈ b.txs.filter (fun t => !poolVouches T s t) := by
           apply List.mem_filter.mpr; exact ⟨ht, by simpa using hp⟩
         exact List.all_eq_true.mp hpre.2.1 t hm
     refine ⟨?_, ?_, ?_⟩
@@ -198,17 +209,16 @@ theorem sig_pres (T : Table) (H : ∀ i j, (T i).hash = (T j).hash → (T i).sig
     · have hf := saveSeq_frame hs1
       have hstored : s1.stored = s.stored := hf.2.2.2.2.2.2.2.2.2.2.1
       have hpool : s1.pool = s.pool := hf.2.2.2.2.2.2.2.2.2.2.2.2.2.2.2.2
+      -- the re-inserted transactions are those of the body stored under the tip's hash: all signed
       have hbsig : ∀ t ∈ b.txs, (T t).sigOk = true := by
         obtain ⟨x', hx', hxs⟩ := h.2.1 tip (by rw [hbest]; simp)
         rw [← hid, hst] at hx'; cases hx'; exact hxs
       refine ⟨?_, ?_, ?_⟩
       · intro x hx
         simp only [hpool] at hx
-        rcases mem_poolReadd _ _ _ hx with h1 | h1
+        rcases mem_poolReadd _ _ _ _ hx with h1 | h1
         · exact h.1 x h1
-        · simp only [keys, ofTable, List.mem_map] at h1
-          obtain ⟨t, ht, rfl⟩ := h1
-          exact ⟨t, rfl, hbsig t ht⟩
+        · exact hbsig x h1
       · intro x hx
         simp only [hstored]
         exact h.2.1 x (by rw [hbest]; exact List.mem_cons_of_mem _ hx)
